@@ -237,6 +237,17 @@ func (f *fam[T]) Eval(seq []int, reps int, st *stats) []failure {
 		if sawPanic {
 			continue // the panic is the violation; nothing to compare re-chunkings with
 		}
+		if e.sameAs == "" && !ref.failed() && n >= 2 {
+			// the same chunk OBJECTS concatenated again (copied streams hand the same chunk pointers to several
+			// consumers, and re-chunking naturally reuses them): the result must be the same function of the sequence
+			objs := f.build(seq)
+			a := call(st, e.f, objs)
+			b := call(st, e.f, objs)
+			if a.pan == "" && b.pan == "" && (a.canon() != refCanon || b.canon() != refCanon) {
+				add("same-chunks-differ", e.name, "%s(%s) = %s, but concatenating the very same chunk objects a second time gives %s (first time %s): the result is not a function of the chunk sequence",
+					e.name, f.labels(seq), ref.show(), b.show(), a.show())
+			}
+		}
 		if e.sameAs != "" {
 			if o, ok := refs[e.sameAs]; ok && o.stable && o.r.pan == "" && o.canon != refCanon {
 				add("entry-points-differ", e.name, "%s(%s) = %s but %s of the same chunks = %s", e.name, f.labels(seq), ref.show(), e.sameAs, o.r.show())
